@@ -9,3 +9,5 @@ import Verif.Props.C03Edit
 import Verif.Model.Cluster
 import Verif.Props.C05
 import Verif.Props.C05Order
+import Verif.Model.TreeDist
+import Verif.Props.C15
